@@ -23,7 +23,9 @@
 //     fallthrough), type switch over a symbolic interface value (see below),
 //     return (also naked), :=, =, op=, ++, --, var, local const
 //     (folded at its uses), assignments
-//     to fields of the receiver or of local struct values; statements after a
+//     to fields of the receiver or of local struct values (under "refs" a
+//     pointer-to-struct parameter whose fields are assigned is returned, after
+//     the receiver, with its final value); statements after a
 //     branching statement are duplicated into both branches;
 //   - `for range n { f(…); _ = g(…) }` over an integer n whose body consists
 //     only of calls with discarded results (trace mode): the body's trace
@@ -40,7 +42,9 @@
 //   - a call to another function of the same translation list is a call of its
 //     Lean definition; cmp.Or over errors is "first non-nil, all arguments
 //     evaluated"; validateProp(name, f) is `f()` (the name prefix is kept in
-//     the error text); validatePositive(name, v) is the intrinsic `v <= 0`
+//     the error text); under "refs" errors.Annotate(err, format, …) is
+//     `wrapErr format err` (nil iff err is nil; an opaque call otherwise);
+//     validatePositive(name, v) is the intrinsic `v <= 0`
 //     (signed integers, durations) resp. `v == 0` (unsigned) — its own body
 //     uses reflection and is tied by syntactic facts and the differential run;
 //   - a struct type of the repository (and timeutil.Duration) becomes a Lean
@@ -204,7 +208,23 @@
 //   - "range_body" translates, instead of the whole function, the body of its
 //     first `for k, v := range …` statement as a function of the loop
 //     variables (one iteration; `continue` ends it) — the way to state the
-//     per-element rule of a loop over a map, whose order is unspecified.
+//     per-element rule of a loop over a map, whose order is unspecified;
+//   - with the spec-file option "refs": true, values of abstract type are not
+//     dropped but modelled as *identity tokens*: an interface value or a
+//     pointer to an abstract struct / to a non-struct is `Option Int` (nil or a
+//     token), a value of an abstract struct type (time.Time, dns.Question) is
+//     `Int` and `T{}` is the token 0; so nil tests, "which value is passed
+//     on / returned / handed to which call" are part of the translated meaning
+//     (tokens appear in traces via toString); reading a field through such a
+//     value is still an opaque value parameter; `&x` and `*p` are opaque values;
+//     a `var` of a type that stays untranslatable (func values) is skipped;
+//     trace arguments follow the rule TrC17 was written against: scalars and
+//     tokens by value, opaque values and "pure" calls read in an argument stay
+//     parameters, anything that needs a traced call or may panic is "_", and
+//     a ':' in a generated parameter name is dropped instead of becoming '_';
+//     under "refs" a slice of translatable elements is a `List`, `len(s)` its
+//     length, `s[i]` is `none` (panic) unless 0 ≤ i < len(s), nil slice = [];
+//   - `len(x)` of anything else is an opaque value parameter.
 //
 // Anything else is a translation error: the generated definition is replaced
 // by a marker that makes the Tie theorem fail, i.e. a broken obligation.
@@ -305,6 +325,8 @@ type trSpecFile struct {
 	// TraceNew: in traced functions `&T{…}` of abstract type is also the
 	// trace entry ("new T", ["K=" ++ value, …]).
 	TraceNew bool `json:"trace_new,omitempty"`
+	// Refs models values of abstract type as identity tokens (see header).
+	Refs bool `json:"refs,omitempty"`
 }
 
 // symbolicOpt is the value of the file-level option "symbolic": a boolean
@@ -439,6 +461,7 @@ type translator struct {
 	traceNew bool
 	// symb: the types declared symbolic one by one ("symbolic": {type: Lean type}).
 	symb map[string]string
+	refs bool // spec-file option "refs"
 }
 
 type funcOut struct {
@@ -483,7 +506,10 @@ func (t *translator) leanTypeC(ty types.Type) string {
 			return t.symb[u.Obj().Pkg().Path()+"."+u.Obj().Name()]
 		}
 		if st, ok := u.Underlying().(*types.Struct); ok {
-			return t.structType(u, st)
+			if s := t.structType(u, st); s != "" || !t.refs {
+				return s
+			}
+			return "Int" // refs: value of an abstract struct type = identity token
 		}
 		return t.leanTypeC(u.Underlying())
 	case *types.Alias:
@@ -501,12 +527,13 @@ func (t *translator) leanTypeC(ty types.Type) string {
 	case *types.Pointer:
 		if n, ok := u.Elem().(*types.Named); ok {
 			if st, ok := n.Underlying().(*types.Struct); ok {
-				s := t.structType(n, st)
-				if s == "" {
-					return ""
+				if s := t.structType(n, st); s != "" {
+					return "(Option " + s + ")"
 				}
-				return "(Option " + s + ")"
 			}
+		}
+		if t.refs {
+			return "(Option Int)" // refs: nil or an identity token
 		}
 		return ""
 	case *types.Slice:
@@ -518,10 +545,16 @@ func (t *translator) leanTypeC(ty types.Type) string {
 		if el := t.leanType(u.Elem()); el != "" {
 			return "(List " + el + ")"
 		}
+		if el := t.leanType(u.Elem()); t.refs && el != "" {
+			return "(List " + el + ")"
+		}
 		return ""
 	case *types.Interface:
 		if u.NumMethods() == 1 && u.Method(0).Name() == "Error" {
 			return "(Option String)"
+		}
+		if t.refs {
+			return "(Option Int)"
 		}
 		return ""
 	case *types.Tuple:
@@ -535,6 +568,26 @@ func (t *translator) leanTypeC(ty types.Type) string {
 		return "(" + strings.Join(parts, " × ") + ")"
 	}
 	return ""
+}
+
+// refAbstract reports whether, under "refs", ty is modelled as an identity token
+// (abstract struct value, pointer to one, pointer to a non-struct, interface).
+func (t *translator) refAbstract(ty types.Type) bool {
+	if !t.refs || isError(ty) {
+		return false
+	}
+	switch u := types.Unalias(ty).(type) {
+	case *types.Named:
+		if _, ok := u.Underlying().(*types.Struct); ok {
+			return !structPkgAllowed(u)
+		}
+		return t.refAbstract(u.Underlying())
+	case *types.Pointer:
+		return !isPtrStruct(u) || t.refAbstract(u.Elem())
+	case *types.Interface:
+		return t.leanType(u) == "(Option Int)"
+	}
+	return false
 }
 
 // valType is the Lean type of a *value* (local, parameter that is compared with
@@ -555,8 +608,12 @@ func (t *translator) valType(ty types.Type) string {
 
 func (t *translator) isAbstract(ty types.Type) bool { return t.leanType(ty) == "" }
 
+// sanitizeColon is what a ':' in a name becomes: "_" (slice bounds `a[i:j]`),
+// "" under the spec-file option "refs" (whose ties were written against that).
+var sanitizeColon = "_"
+
 func sanitize(s string) string {
-	r := strings.NewReplacer(".", "_", "/", "_", "-", "_", "*", "", "(", "", ")", "", "[", "_", "]", "_", " ", "", ":", "_")
+	r := strings.NewReplacer(".", "_", "/", "_", "-", "_", "*", "", "(", "", ")", "", "[", "_", "]", "_", " ", "", "{", "", "}", "", "&", "", ":", sanitizeColon, ",", "_")
 	return r.Replace(s)
 }
 
@@ -651,6 +708,7 @@ type fctx struct {
 	loopEnd     map[*ast.EmptyStmt]int
 	opaqueCalls map[*ast.CallExpr]string
 	nonNil      map[types.Object]bool
+	paramMut    []string // pointer parameters whose fields are assigned (returned after the receiver)
 }
 
 type ex struct {
@@ -935,8 +993,9 @@ func (c *fctx) expr(e ast.Expr) ex {
 	case *ast.SelectorExpr:
 		return c.selector(x)
 	case *ast.StarExpr:
-		if c.t.isAbstract(c.typeOf(x)) {
+		if c.t.isAbstract(c.typeOf(x)) || c.t.refs {
 			// what an abstract pointer points to: an abstract value again
+			// ("refs": `*p` is always an opaque value)
 			return c.opaqueValue(x)
 		}
 	case *ast.SliceExpr:
@@ -946,6 +1005,9 @@ func (c *fctx) expr(e ast.Expr) ex {
 			return c.expr(x.X)
 		}
 	case *ast.UnaryExpr:
+		if x.Op == token.AND && c.t.refs {
+			return c.opaqueValue(e) // "refs": address of something: a fresh identity token
+		}
 		if cl, ok := x.X.(*ast.CompositeLit); ok && x.Op == token.AND && c.t.isAbstract(c.typeOf(x)) {
 			// a freshly allocated abstract object: non-nil; calls among its
 			// elements are evaluated (for the trace)
@@ -1013,6 +1075,9 @@ func (c *fctx) expr(e ast.Expr) ex {
 		}
 		if n, ok := c.typeOf(x).(*types.Named); ok && len(x.Elts) == 0 && n.Obj().Pkg() != nil && c.t.symb[n.Obj().Pkg().Path()+"."+n.Obj().Name()] != "" {
 			return ex{code: c.zero(n)}
+		}
+		if len(x.Elts) == 0 && c.t.refAbstract(c.typeOf(x)) && c.t.leanType(c.typeOf(x)) == "Int" {
+			return ex{code: "(0 : Int)"} // zero value of an abstract struct: the token 0
 		}
 	}
 	if ix, ok := e.(*ast.IndexExpr); ok {
@@ -1246,7 +1311,7 @@ func (c *fctx) selector(x *ast.SelectorExpr) ex {
 	if sel == nil || sel.Kind() != types.FieldVal {
 		fail("selector %s is not a field", c.show(x))
 	}
-	if bt := c.typeOf(x.X); c.t.abstract(bt) {
+	if bt := c.typeOf(x.X); c.t.abstract(bt) || c.t.refAbstract(bt) {
 		return c.opaqueValue(x)
 	}
 	if len(sel.Index()) != 1 {
@@ -1527,6 +1592,9 @@ func (c *fctx) call(x *ast.CallExpr) ex {
 			xs = append(xs, c.exprAs(a, types.Universe.Lookup("error").Type()))
 		}
 		return c.bindN(xs, func(s []string) string { return "(firstErr [" + strings.Join(s, ", ") + "])" })
+	case key == "github.com/AdguardTeam/golibs/errors.Annotate" && len(x.Args) >= 2 && c.t.refs:
+		// nil stays nil, anything else is wrapped (the format is kept as the prefix)
+		return c.bindN([]ex{c.expr(x.Args[1]), c.expr(x.Args[0])}, func(s []string) string { return "(wrapErr " + s[0] + " " + s[1] + ")" })
 	case strings.HasSuffix(key, "/internal/cmd.validateProp"):
 		name := c.expr(x.Args[0])
 		inner := c.thunk(x.Args[1])
@@ -1658,6 +1726,9 @@ func (c *fctx) traceArg(a ast.Expr) (code string) {
 	if id, ok := a.(*ast.Ident); ok && id.Name == "_" {
 		return code
 	}
+	if c.t.refs {
+		return c.traceArgRefs(a)
+	}
 	if se, ok := a.(*ast.SliceExpr); ok && c.t.isAbstract(c.typeOf(se.X)) && !se.Slice3 {
 		// a window of an abstract buffer: its source name and the values of its bounds
 		bound := func(e ast.Expr) string {
@@ -1764,6 +1835,41 @@ func (c *fctx) traceArg(a ast.Expr) (code string) {
 	return fmt.Sprintf(render, e.code)
 }
 
+// traceArgRefs is traceArg under the spec-file option "refs" (the rules TrC17
+// was written against): scalars and identity tokens are shown by value;
+// opaque values and untraced ("pure") calls read in the argument stay ordinary
+// parameters; an argument that needs a traced call or may panic is "_".
+func (c *fctx) traceArgRefs(a ast.Expr) string {
+	tv, ok := c.p.info.Types[a]
+	if !ok || tv.Type == nil {
+		return "\"_\""
+	}
+	lt := c.t.leanType(tv.Type)
+	if lt != "Int" && lt != "Bool" && lt != "String" && !c.t.refAbstract(tv.Type) {
+		return "\"_\""
+	}
+	savedN, savedO, savedP := c.nOpaque, len(c.opaque), c.partial
+	e := c.expr(a)
+	if e.partial || strings.Contains(e.code, "«call:") {
+		c.nOpaque, c.opaque, c.partial = savedN, c.opaque[:savedO], savedP
+		for k, v := range c.opaqueVals { // forget what was rolled back
+			if !c.declared(v) {
+				delete(c.opaqueVals, k)
+			}
+		}
+		for k, v := range c.opaqueCalls {
+			if !c.declared(v) {
+				delete(c.opaqueCalls, k)
+			}
+		}
+		return "\"_\""
+	}
+	if lt == "String" {
+		return e.code
+	}
+	return "(toString " + e.code + ")"
+}
+
 // symCall renders an opaque call that occurs as a trace argument as a token:
 // "x.M(a,…)" for a method of an abstract value x, "f(a,…)" for a function that
 // is not translated, "T(…)" for a conversion of such a call ("" if a is none
@@ -1850,6 +1956,16 @@ func (c *fctx) nestedTrace(call *ast.CallExpr, rest []ast.Stmt) string {
 		}
 		return fmt.Sprintf("let tr := tr ++ [(%q, [%s])]\n", lastName(c.show(call.Fun)), strings.Join(args, ", ")) + c.stmts(rest)
 	})
+}
+
+// declared reports whether the opaque parameter name is (still) a parameter.
+func (c *fctx) declared(name string) bool {
+	for _, p := range c.opaque {
+		if strings.HasPrefix(p, "("+name+" : ") {
+			return true
+		}
+	}
+	return false
 }
 
 func lastName(s string) string {
@@ -1971,6 +2087,7 @@ func (c *fctx) ret(vals []string) string {
 		if c.recvMut {
 			parts = append(parts, leanIdent(c.recv))
 		}
+		parts = append(parts, c.paramMut...)
 		parts = append(parts, vals...)
 		for _, o := range c.spec.Out {
 			parts = append(parts, leanIdent(o))
@@ -2363,6 +2480,9 @@ func (c *fctx) stmts(list []ast.Stmt) string {
 				fail("var with values %s", c.show(x))
 			}
 			for _, n := range vs.Names {
+				if c.t.refs && c.t.leanType(c.p.info.Defs[n].Type()) == "" {
+					continue // variable of untranslatable type (func value …): only passed around
+				}
 				z := c.zero(c.p.info.Defs[n].Type())
 				out += fmt.Sprintf("let %s : %s := %s\n", leanIdent(n.Name), c.t.valType(c.p.info.Defs[n].Type()), z)
 			}
@@ -3151,6 +3271,27 @@ func (t *translator) translate(sp TrFunc) (fo *funcOut) {
 		}
 		resTypes = append(resTypes, t.leanType(rty))
 	}
+	// a pointer-to-struct parameter whose fields are assigned: its final value is returned too
+	for i := 0; i < sig.Params().Len() && t.refs; i++ {
+		v := sig.Params().At(i)
+		if lt := t.leanType(v.Type()); isPtrStruct(v.Type()) && strings.HasPrefix(lt, "(Option S_") {
+			found := false
+			ast.Inspect(fd.Body, func(n ast.Node) bool {
+				if as, ok := n.(*ast.AssignStmt); ok {
+					for _, l := range as.Lhs {
+						if se, ok := l.(*ast.SelectorExpr); ok && identOf(se.X) != nil && c.p.info.Uses[identOf(se.X)] == types.Object(v) {
+							found = true
+						}
+					}
+				}
+				return true
+			})
+			if found {
+				c.paramMut = append(c.paramMut, leanIdent(v.Name()))
+				resTypes = append(resTypes, lt)
+			}
+		}
+	}
 	for i := 0; i < sig.Results().Len(); i++ {
 		v := sig.Results().At(i)
 		c.results = append(c.results, v)
@@ -3278,7 +3419,11 @@ func runTranslator(specDir, outDir, harness, modfile string) error {
 	sort.Strings(props)
 	for _, prop := range props {
 		sf := specs[prop]
-		t := &translator{l: l, structs: map[string]*structDef{}, funcs: map[string]*funcOut{}, byDecl: map[string]TrFunc{}, symbolic: sf.Symbolic.All, symb: sf.Symbolic.Types, absBytes: sf.AbstractBytes, traceErrors: sf.TraceErrors, traceNew: sf.TraceNew}
+		t := &translator{l: l, structs: map[string]*structDef{}, funcs: map[string]*funcOut{}, byDecl: map[string]TrFunc{}, symbolic: sf.Symbolic.All, symb: sf.Symbolic.Types, absBytes: sf.AbstractBytes, traceErrors: sf.TraceErrors, traceNew: sf.TraceNew, refs: sf.Refs}
+		sanitizeColon = "_"
+		if sf.Refs {
+			sanitizeColon = ""
+		}
 		for _, f := range sf.Funcs {
 			t.byDecl[repoModule+f.Pkg+"."+f.Func] = f
 		}
@@ -3320,6 +3465,8 @@ func runTranslator(specDir, outDir, harness, modfile string) error {
 	}
 	return nil
 }
+
+func identOf(e ast.Expr) *ast.Ident { id, _ := e.(*ast.Ident); return id }
 
 func quoteList(xs []string) string {
 	var q []string
